@@ -34,7 +34,8 @@ RULES = {
     'd': ('int', -2**31, 2**31 - 1, True),
     'f': ('float', None, 2.5, False), 'b': ('bool', False),
     's': ('str', 1, 3, None, False), 'p': ('str', None, None, '[a-z]+', False),
-    'li': ('list-int', 0, 2**31 - 1, 2, False), 'ls': ('list-str', 2, True), 'm': ('map-int', True),
+    'li': ('list-int', 0, 2**31 - 1, 2, False), 'ls': ('list-str', 2, True), 'm': ('map-int', 0, True),
+    'mk': ('map-int', 2, True),          # Map(String(min_length=2), Int32)?
     'inner': ('ref', ('default', 'other'), False), 'oinner': ('ref', ('default', 'other'), True),
     'un': ('ref', ('default', 'numex', 'v', 'viatree'), False),
     'uc': ('ref', ('a', 'c'), True),           # void tags: own (c) and inherited from the parent union (a)
@@ -56,7 +57,7 @@ def oracle_for(field, present, v):
     kind = rule[0]
     if v is None:
         # "null can be used to mark that a nullable type is not present"
-        if field in ('oi', 'ls', 'm', 'oinner', 'ts', 'byt', 'uc'):
+        if field in ('oi', 'ls', 'm', 'mk', 'oinner', 'ts', 'byt', 'uc'):
             return 'accept'
         return 'reject'
     if isinstance(v, A.AstExampleRef):
@@ -110,6 +111,8 @@ def oracle_for(field, present, v):
     if kind == 'map-int':
         if not isinstance(v, dict):
             return 'reject'
+        if any(len(key) < rule[1] for key in v):
+            return 'reject'               # the key type's constraints apply to example keys
         if any(isinstance(x, bool) for x in v.values()):
             return 'unspec'
         return 'accept' if all(_is_int(x) and -2**31 <= x <= 2**31 - 1 for x in v.values()) else 'reject'
@@ -257,12 +260,12 @@ def float_example(v: float) -> bool:
     return _decide(struct, field, True, v)
 
 
-LIST_FIELDS = ['li', 'ls', 'm', 'i', 'inner']
+LIST_FIELDS = ['li', 'ls', 'm', 'mk', 'i', 'inner']
 
 
 @hx.harness(props=['C01', 'C02', 'C03', 'C10'], targets=_TG, items=lambda: [it for it in ['%s/%d' % (x.split('@')[0], k)
                                          for x in _accepting(['E.%s@container' % f for f in LIST_FIELDS]) for k in range(3)]
-                           if hx.ASPECT not in ('C02', 'C10') or it in ('E.li/0', 'E.ls/0', 'E.m/1')],
+                           if hx.ASPECT not in ('C02', 'C10') or it in ('E.li/0', 'E.ls/0', 'E.m/1', 'E.mk/1')],
             bound='example value that is (0) a list (<= 2 items) (1) a map (keys from {k, kk}) of null/bool/int/string(<= 2), '
                   '(2) a scalar, for a list / map / scalar / struct typed field', outside=_OUT, budget=(400, 900))
 def container_example(a: Union[None, bool, int, str], b: Union[None, bool, int, str], n: int) -> bool:
